@@ -88,6 +88,13 @@ def addLaneletR (n : Net) (l : Option Lanelet) : Res Net :=
 def addInter (n : Net) (i : Intersection) : Net :=
   if n.iids.contains i.id then n else { n with inters := n.inters ++ [i] }
 
+/-- outcome of one pass through the body of the loop over the old intersections: `none` = `continue`, `some i` =
+`net.add_intersection(i)`. -/
+def addInterO (n : Net) (o : Option Intersection) : Net :=
+  match o with
+  | none => n
+  | some i => addInter n i
+
 /-- sequencing of a statement that may raise with the rest of a function that returns a value (`Res`). -/
 def bindR (r : Res Net) (k : Net → Res Net) : Res Net :=
   match r with
